@@ -82,6 +82,12 @@ class JobResult:
 
     @property
     def failed(self):
+        """obligations the verifier refuted (FAILURE).  CBMC reports obligations that come after a refuted
+        one on the same path as UNKNOWN: they are not discharged, but they are not refuted either."""
+        return [o for o in self.obligations if o['status'] == 'FAILURE']
+
+    @property
+    def undischarged(self):
         return [o for o in self.obligations if o['status'] != 'SUCCESS']
 
 
@@ -284,7 +290,13 @@ def run_job(job, workdir, keep=False, extra_defs=(), trace_property=None):
     if dead:
         r.reason = 'vacuity: canary not reachable: ' + dead[0]['description']
         return r
-    r.status = 'failed' if r.failed else 'proved'
+    if r.failed:
+        r.status = 'failed'
+    elif r.undischarged:
+        r.status = 'undecided'
+        r.reason = 'obligations neither discharged nor refuted: ' + ', '.join('%s=%s' % (o['name'], o['status']) for o in r.undischarged[:5])
+    else:
+        r.status = 'proved'
     return r
 
 
